@@ -347,7 +347,7 @@ pub fn run(ctx: &mut Ctx) {
             0 => (&pr.n - r9::h1(&id, hid)) % &pr.n,
             1 => (&pr.n - r9::h1(&id, hid) + 1u32) % &pr.n,
             2 => (&pr.n + &pr.n - r9::h1(&id, hid) - 1u32) % &pr.n,
-            _ => scalar_for(&mut p, i % 20),
+            _ => scalar_for(&mut p, i % 28),
         };
         if k.is_zero() {
             continue;
